@@ -321,6 +321,7 @@ func VerifC13SlashOnlyIf() {
 	}
 	rt.Cover("state-built")
 	e.k.EndBlocker(e.ctx)
+	rt.Assert(e.k.GetLastTotalPower(e.ctx).GTE(e.onlinePower()), "after the slashing pass the recorded total power is at least the power of the online oracles (C02 / R2)")
 	for i, before := range oracles {
 		after, found := e.k.GetOracle(e.ctx, verifOracleIdent(i).oracle)
 		if !found {
